@@ -52,6 +52,39 @@ Proof. exact op_spec_functional. Qed.
 Theorem C14_mux_ops_decided : forall ops k e, op_expected ops k = Some e <-> op_spec ops k e.
 Proof. exact op_expected_spec. Qed.
 
+(* --- re-entrant dispatch: a handler may call Serve on the same or another ServeMux before it
+   returns ([acts]: handler h given topic trig serves t' on instance j; nesting depth bounded by
+   [fuel]).  Serve is read-only on the mux, so the nested call is plain sequencing at that point;
+   the event of a Serve is the flattened invocation order with nesting depths. --- *)
+
+(* nested version of C14_mux_ops_serve: for any history and any handler behaviour, the trace of a
+   Serve at position k satisfies the state-free spec [nspec] (each selected handler in order, each
+   followed by what it re-dispatches), and the outer call's OWN invocations (depth 0) are exactly
+   the handlers registered before k on that ServeMux which select the OUTER topic, in order *)
+Theorem C14_mux_nested_serve : forall acts fuel ops k i t, nth_error ops k = Some (OpServe i t) ->
+  exists tr, nth_error (nmuxes_run acts fuel muxes_empty ops) k = Some (NvServe tr) /\
+             nspec acts (fun j => regs_on j (firstn k ops)) fuel 0 i t tr /\
+             select_rel t (regs_on i (firstn k ops)) (at_depth 0 tr).
+Proof. exact nmuxes_serve_outer. Qed.
+
+(* at every depth: the invocations of a (nested) call itself are those selected for ITS topic *)
+Theorem C14_nested_outer : forall acts R fuel d i t tr,
+  nspec acts R fuel d i t tr -> select_rel t (R i) (at_depth d tr).
+Proof. exact nspec_outer. Qed.
+
+Theorem C14_mux_nested : forall acts fuel ops k, (k < length ops)%nat ->
+  exists e, nth_error (nmuxes_run acts fuel muxes_empty ops) k = Some e /\ nop_spec acts fuel ops k e.
+Proof. exact nmuxes_run_spec. Qed.
+
+Theorem C14_mux_nested_unique : forall acts fuel ops k e1 e2,
+  nop_spec acts fuel ops k e1 -> nop_spec acts fuel ops k e2 -> e1 = e2.
+Proof. exact nop_spec_functional. Qed.
+
+(* the predicate evaluated on observed re-entrant histories (CheckC14.nest_prop_ok) decides it *)
+Theorem C14_mux_nested_decided : forall acts fuel ops k e,
+  nserve_expected acts fuel ops k = Some e <-> nop_spec acts fuel ops k e.
+Proof. exact nserve_expected_spec. Qed.
+
 (* --- '$' ---
    The property ranges over topic names that do not start with '$'.  [valid_filter], [matches] and
    the model have no case for '$' at all: exchanging '$' and 'a' everywhere in filter and topic
@@ -97,3 +130,8 @@ Print Assumptions C14_dollar_ordinary.
 Print Assumptions C14_matches_rename.
 Print Assumptions C14_plus_level_irrelevant.
 Print Assumptions C14_dollar_first_is_not_special.
+Print Assumptions C14_mux_nested_serve.
+Print Assumptions C14_nested_outer.
+Print Assumptions C14_mux_nested.
+Print Assumptions C14_mux_nested_unique.
+Print Assumptions C14_mux_nested_decided.
